@@ -6,8 +6,15 @@
 From GoCar Require Import Bytes Varint Cid Header Frame V2Header Index Store.
 
 (* ---- front-ends and operations ------------------------------------------------------------------ *)
-(* FSt readable: storage.NewReadableWritable (true) / storage.NewWritable (false: no Get) *)
-Inductive front := FBs | FSt (readable : bool).
+(* FBs: blockstore.OpenReadWrite(path) -- the blockstore owns the file, Close/Discard close it;
+   FSt readable: storage.NewReadableWritable (true) / storage.NewWritable (false: no Get);
+   FBf: blockstore.OpenReadWriteFile(f) -- the CALLER owns the *os.File, which stays open across
+        Close/Discard (ReadOnly.carv2Closer is nil).  Same state machine as FBs; the one observable
+        difference is Roots(), which re-reads the header from the file and does not test the closed
+        flag: it keeps answering after Close/Discard.  (And a stray write after Discard would land in
+        the file instead of failing -- which is why the frozen-file clause is checked on this variant.) *)
+Inductive front := FBs | FSt (readable : bool) | FBf.
+Definition is_bs (f : front) : bool := match f with FSt _ => false | _ => true end.
 
 Inductive sop :=
 | OpPut (c d : bytes)
@@ -54,6 +61,20 @@ Section Impl.
       | OpRoots => (s, OKeys (ws_roots s))
       | OpFinalize => st_finalize s
       | _ => (s, not_offered)
+      end
+    | FBf =>
+      match op with
+      | OpPut c d => bs_put_many s [(c, d)]
+      | OpPutMany l => bs_put_many s l
+      | OpHas c => (s, bs_has s c)
+      | OpGet c => (s, bs_get s c)
+      | OpGetSize c => (s, bs_getsize s c)
+      | OpKeys => (s, bs_allkeys s)
+      | OpRoots => (s, bs_roots hdrdec (set_flags s false (ws_finalized s)))  (* the file is still open *)
+      | OpFinalize => bs_finalize s
+      | OpFinalizeRO => bs_finalize_ro s
+      | OpClose => bs_close s
+      | OpDiscard => bs_discard s
       end
     end.
 End Impl.
@@ -219,6 +240,20 @@ Definition spec_step (f : front) (o : wopts) (roots : list bytes) (m : mstate) (
     | OpRoots => (m, OKeys roots)
     | OpFinalize => m_st_finalize o m
     | _ => (m, not_offered)
+    end
+  | FBf =>
+    match op with
+    | OpPut c d => m_put_many o m [(c, d)]
+    | OpPutMany l => m_put_many o m l
+    | OpHas c => (m, m_has o m c)
+    | OpGet c => (m, m_get o m c)
+    | OpGetSize c => (m, m_getsize o m c)
+    | OpKeys => (m, m_keys o m)
+    | OpRoots => (m, OKeys roots)
+    | OpFinalize => m_bs_finalize o m
+    | OpFinalizeRO => m_bs_finalize_ro o m
+    | OpClose => m_bs_close o m
+    | OpDiscard => m_bs_discard m
     end
   end.
 
